@@ -192,6 +192,7 @@ func verifC05(n Name) (base []byte, parts [][]byte, b2 []byte) {
 //@   requires r != nil && cfgOK(r)
 //@   modifies r, r.Config, r.configPos
 //@   ensures cfgIndexed(r) && sameScalars(deref(r), old(deref(r)))
+//@   ensures old(cfgSep(r)) ==> cfgSep(r)
 //@   ensures ref(r.Config) == old(ref(r.Config)) && off(r.Config) == old(off(r.Config)) && cap(r.Config) == old(cap(r.Config))
 //@   ensures !old(cfgHasKey(r, key)) ==> len(r.Config) == old(len(r.Config))
 //@   ensures old(cfgHasKey(r, key)) ==> len(r.Config) == old(len(r.Config)) - 1
@@ -205,13 +206,18 @@ func verifC05(n Name) (base []byte, parts [][]byte, b2 []byte) {
 //@   requires r != nil && cfgOK(r)
 //@   modifies r, r.Config, r.configPos
 //@   ensures cfgIndexed(r) && sameScalars(deref(r), old(deref(r)))
+//@   ensures old(cfgSep(r)) ==> cfgSep(r)
 //@   ensures cfg != nil && ref(cfg) == ref(r.Config) && off(r.Config) <= pidx(cfg) < off(r.Config)+len(r.Config)
 //@   ensures deref(cfg).Key == key && deref(cfg).File == file
-//@   ensures old(cfgHasKey(r, key)) ==> len(r.Config) == old(len(r.Config)) && r.Config === old(r.Config) &&
+//@   ensures old(cfgHasKey(r, key)) <==> len(r.Config) == old(len(r.Config))
+//@   ensures len(r.Config) == old(len(r.Config)) || len(r.Config) == old(len(r.Config)) + 1
+//@   ensures len(r.Config) == old(len(r.Config)) ==> r.Config === old(r.Config) &&
 //@             deref(cfg).Value === old(deref(cfg)).Value && old(deref(cfg)).Key == key
-//@   ensures !old(cfgHasKey(r, key)) ==> len(r.Config) == old(len(r.Config)) + 1 && pidx(cfg) == off(r.Config)+len(r.Config)-1
-//@   ensures !old(cfgHasKey(r, key)) && old(len(r.Config) < cap(r.Config)) ==> ref(r.Config) == old(ref(r.Config)) && off(r.Config) == old(off(r.Config))
-//@   ensures !old(cfgHasKey(r, key)) && old(len(r.Config) == cap(r.Config)) ==> fresh(r.Config) && deref(cfg).Value == nil
+//@   ensures len(r.Config) != old(len(r.Config)) ==> pidx(cfg) == off(r.Config)+len(r.Config)-1
+//@   ensures len(r.Config) != old(len(r.Config)) && old(len(r.Config) < cap(r.Config)) ==>
+//@             ref(r.Config) == old(ref(r.Config)) && off(r.Config) == old(off(r.Config)) && cap(r.Config) == old(cap(r.Config)) &&
+//@             deref(cfg).Value === old(r.Config[len(r.Config)].Value)
+//@   ensures len(r.Config) != old(len(r.Config)) && old(len(r.Config) == cap(r.Config)) ==> fresh(r.Config) && off(r.Config) == 0 && deref(cfg).Value == nil
 //@   ensures forall i int :: 0 <= i < old(len(r.Config)) && off(r.Config)+i != pidx(cfg) ==> r.Config[i] == old(r.Config[i])
 
 //@ func (r *Result) GetConfig(key string) (v string)
@@ -245,3 +251,19 @@ func verifC05(n Name) (base []byte, parts [][]byte, b2 []byte) {
 //@     invariant forall i int :: 0 <= i < idx() ==> r2.Config[i].Value == r.Config[i].Value
 //@     invariant forall i int :: 0 <= i < idx() ==> (len(r2.Config[i].Value) == 0 || fresh(r2.Config[i].Value))
 //@     decreases len(r.Config) - idx()
+
+//@ pure func cfgSep(r *Result) bool = forall i int, j int :: 0 <= i < j < cap(r.Config) ==>
+//@     ref(r.Config[i].Value) == 0 || ref(r.Config[i].Value) != ref(r.Config[j].Value)
+//@ pure func bytesAre(b []byte, s string) bool = len(b) == len(s) && forall j int :: 0 <= j < len(b) ==> b[j] == s[j]
+
+//@ func (r *Result) SetConfig(key, value string)
+//@   props C02 C01
+//@   requires r != nil && cfgOK(r) && cfgSep(r)
+//@   modifies r, r.Config, r.configPos, forall i int :: 0 <= i < cap(r.Config) ==> r.Config[i].Value
+//@   ensures cfgIndexed(r) && cfgSep(r) && sameScalars(deref(r), old(deref(r)))
+//@   ensures value == "" ==> !cfgHasKey(r, key)
+//@   ensures value != "" ==> cfgHasKey(r, key)
+//@   ensures value != "" ==> forall i int :: 0 <= i < len(r.Config) && r.Config[i].Key == key ==> bytesAre(r.Config[i].Value, value) && !r.Config[i].File
+//@   ensures value != "" ==> len(r.Config) >= old(len(r.Config)) && (forall i int :: 0 <= i < old(len(r.Config)) ==> r.Config[i].Key == old(r.Config[i].Key))
+//@   ensures value != "" ==> forall i int :: 0 <= i < old(len(r.Config)) && old(r.Config[i].Key) != key ==>
+//@             r.Config[i].File == old(r.Config[i].File) && r.Config[i].Value == old(r.Config[i].Value)
